@@ -16,7 +16,8 @@ EXPLANATION = (
     "(R02.6) optimize() keeps exactly the newest filter estimate as the track's comparison box and make_prediction "
     "stores update(predict(state)); (R02.7) weights only on the too_far()==false side; (R02.8) the new-track weight "
     "handed to the assignment is the configured threshold in all four trackers. "
-    "R02.6 includes the make_prediction sequencing clauses of C07 (the box kept for the next association is converted from the UPDATED state); (R02.11) the batch trackers release the batch monitor only after the scene result was sent, i.e. after the store updates of the batch, so the next batch computes distances against current tracks.")
+    "R02.6 includes the make_prediction sequencing clauses of C07 (the box kept for the next association is converted from the UPDATED state); (R02.11) the batch trackers release the batch monitor only after the scene result was sent, i.e. after the store updates of the batch, so the next batch computes distances against current tracks."
+    ' (R02.12) the quantity the IoU gate compares is the IoU of C08 (intersection = area of the clip of the two box polygons unless too_far, IoU = I / (A_l + A_r - I)) and the bounding-circle reach of the Mahalanobis mode compares the centre distance with the sum of both bounding radii.')
 NOT_DECIDED = ["optimality of the assignment (trusted: pathfinding::kuhn_munkres)", "IoU / Kalman numerics",
                "uniqueness margins / ties"]
 ASSUMPTIONS = ["pathfinding::kuhn_munkres returns a maximum-weight perfect matching of the rows",
@@ -51,6 +52,18 @@ def run(ctx):
     ctx.floor('R02.10', n, 25)
     ctx.rule('R02.8', 'new-track weight = configured threshold in all four trackers')
     ctx.floor('R02.8', M.rule_voting_threshold(ctx, 'R02.8'), 6)
+    # the IoU the gate compares and the bounding-circle reach of the Mahalanobis mode (clauses of C08, run here because
+    # the gate of C02 is stated in terms of them)
+    from props import C08
+    import props.C20 as C20
+    import geomlib
+    ctx.rule('R02.12', 'the gated quantity is the real IoU: intersection = area of clip(l, r) unless too_far, IoU = I/(A_l+A_r-I); '
+                       'reach = centre distance against the sum of both bounding radii')
+    n = C08.intersection_rule(ctx, 'R02.12')
+    n += C20.r4(ctx, 'R02.12', ('too_far',))
+    n += C08.radius_rule(ctx, 'R02.12')
+    n += geomlib.iou_rule(ctx, 'R02.12')
+    ctx.floor('R02.12', n, 14)
 
 
 def _wiring(ctx):
